@@ -14,13 +14,13 @@ ID = 'C17'
 RULE = ('(a) weighted digraphs: all n=3 over {0,1,2,3}; n=4 over {0,1,2} with <=4 edges (T: <=6) and over {0,2,3} with <=4 '
         'edges x all disjoint non-empty (sources,sinks) (Q, n=4: alternating halves of the 50 pairs) x scheme {subtract,bottleneck} x num_paths {1,2,inf} x flux_cutoff '
         '{0.3,0.9,1-1e-10}; (b) conserved acyclic flows: every superposition of <=3 source->sink paths with weights {1,0.5} '
-        'on topologically ordered DAGs n<=5 with 1-2 sources/sinks; state=(graph,A,B,scheme,limits); non-trivial = >=2 '
+        'on topologically ordered DAGs n<=5 with 1-2 sources/sinks, also scaled by 1e-9, 1e-12 and 3e6 (the statement is scale free); state=(graph,A,B,scheme,limits); non-trivial = >=2 '
         'distinct source->sink paths exist')
 ASSUMPTIONS = ['ties (several paths with the maximal bottleneck) are not resolved by the oracle: any maximiser is accepted',
                'for the bottleneck scheme the residual graph is tracked only while the removed edge is unambiguous '
                '(no tie for the minimum along the path); afterwards only order-free clauses are checked',
                'flux = -inf from top_path is the API\'s "no path" answer and is checked against the brute-force search']
-GUARDS = {'multi_path_graphs': 500, 'no_path': 500, 'conserved': 200, 'multi_sink': 500, 'cutoff_stop': 100,
+GUARDS = {'scaled_fluxes': 500, 'multi_path_graphs': 500, 'no_path': 500, 'conserved': 200, 'multi_sink': 500, 'cutoff_stop': 100,
           'count_stop': 500, 'second_path_differs': 500}
 NSH = {'quick': 64, 'thorough': 256}
 CUTS = (0.3, 0.9, 1 - 1e-10)
@@ -103,7 +103,7 @@ def simple_paths(G, sources, sinks):
     return out
 
 
-def check_path(G, path, flux, sources, sinks):
+def check_path(G, path, flux, sources, sinks, tol=1e-12):
     """clauses for one returned path on residual G; returns error string or None"""
     path = [int(p) for p in path]
     if len(path) < 2:
@@ -115,14 +115,17 @@ def check_path(G, path, flux, sources, sinks):
     caps = [G[a, b] for a, b in zip(path[:-1], path[1:])]
     if min(caps) <= 0:
         return 'path %r uses an edge without positive residual flux (%r)' % (path, caps)
-    if abs(min(caps) - flux) > 1e-12:
+    if abs(min(caps) - flux) > tol:
         return 'path %r reported flux %r but its smallest edge is %r' % (path, flux, min(caps))
     return None
 
 
 def check_case(case, ctx):
     from enspara import tpt
-    G = np.array(case['G'], float)
+    G = np.array(case['G'], float) * case.get('scale', 1.0)
+    tol = 1e-12 * (G.max() if G.max() > 0 else 1.0)       # all tolerances are relative to the flux scale
+    if case.get('scale', 1.0) != 1.0:
+        ctx.guard('scaled_fluxes')
     A, B = case['A'], case['B']
     scheme, npaths, cut = case['scheme'], case['num_paths'], case['cutoff']
     n = len(G)
@@ -148,10 +151,10 @@ def check_case(case, ctx):
             ctx.violation('top_path:phantom_path', case, 'no source->sink path exists but top_path returned %r flux %r' % (p, f))
     else:
         best = max(b for _, b in allp)
-        err = check_path(G, p, f, A, B)
+        err = check_path(G, p, f, A, B, tol)
         if err:
             ctx.violation('top_path:invalid', case, '%s (%r)' % (err, case))
-        elif abs(f - best) > 1e-12:
+        elif abs(f - best) > tol:
             ctx.violation('top_path:not_widest', case, 'top path %r has bottleneck %r but a path with %r exists (%r)' % (list(map(int, p)), f, best, case))
     # ---- paths
     kw = {'remove_path': scheme, 'flux_cutoff': cut}
@@ -175,12 +178,12 @@ def check_case(case, ctx):
         ctx.guard('count_stop')
     if allp and len(ps) == 0:
         ctx.violation('paths:none_found', case, 'paths exist but none returned (%r)' % (case,))
-    if (np.diff(fs) > 1e-12).any():
+    if (np.diff(fs) > tol).any():
         ctx.violation('paths:flux_increases', case, 'fluxes %r (%r)' % (fs.tolist(), case))
     total = G[A, :].sum()
-    if fs.sum() > total + 1e-12:
+    if fs.sum() > total + tol:
         inter = [i for i in range(n) if i not in A and i not in B]
-        conserved = all(abs(G[:, i].sum() - G[i].sum()) < 1e-12 for i in inter)
+        conserved = all(abs(G[:, i].sum() - G[i].sum()) < 10 * tol for i in inter)
         ctx.violation('paths:sum_exceeds_outflow:%s:%s' % (scheme, 'conserved' if conserved else 'nonconserved'), case,
                       'path fluxes %r sum to %r > outflow of sources %r (%r)' % (fs.tolist(), fs.sum(), total, case))
     # per-path clauses on the independently tracked residual graph
@@ -189,12 +192,12 @@ def check_case(case, ctx):
     for k, (p, f) in enumerate(zip(ps, fs)):
         p = [int(x) for x in p]
         if tracked:
-            err = check_path(R, p, f, A, B)
+            err = check_path(R, p, f, A, B, tol)
             if err:
                 ctx.violation('paths:invalid_path:%s' % scheme, case, 'path #%d: %s (%r)' % (k, err, case))
                 break
             best = max(b for _, b in simple_paths(R, A, B))
-            if abs(f - best) > 1e-12:
+            if abs(f - best) > tol:
                 ctx.violation('paths:not_widest_in_residual:%s' % scheme, case,
                               'path #%d %r flux %r but residual graph has a path with bottleneck %r (%r)' % (k, p, f, best, case))
                 break
@@ -202,11 +205,9 @@ def check_case(case, ctx):
             caps = [R[a, b] for a, b in edges]
             if scheme == 'subtract':
                 for a, b in edges:
-                    R[a, b] -= f
-                    if R[a, b] < 1e-15:
-                        R[a, b] = 0.0
+                    R[a, b] -= f          # the same float operation the scheme performs; tied minima become exactly 0
             else:
-                if sum(1 for c in caps if abs(c - min(caps)) < 1e-15) > 1:
+                if sum(1 for c in caps if abs(c - min(caps)) <= 1e-3 * tol) > 1:
                     tracked = False
                 else:
                     a, b = edges[int(np.argmin(caps))]
@@ -252,6 +253,9 @@ def run_shard(sh, ctx):
                     for npaths, cut in opts:
                         case = {'G': G.tolist(), 'A': A, 'B': B, 'scheme': scheme, 'num_paths': npaths, 'cutoff': cut}
                         check_case(case, ctx)
+                    if jj % 7 == 0:
+                        check_case({'G': G.tolist(), 'A': A, 'B': B, 'scheme': scheme, 'num_paths': 'inf', 'cutoff': CUTS[2],
+                                    'scale': 1e-9}, ctx)
             if j % 499 == 0:
                 ctx.sample(case)
     else:
@@ -264,6 +268,10 @@ def run_shard(sh, ctx):
                         case = {'G': G.tolist(), 'A': A, 'B': B, 'scheme': scheme, 'num_paths': npaths, 'cutoff': cut,
                                 'conserved': True}
                         check_case(case, ctx)
+                # the statement is scale free: physical fluxes are ~1e-9, counts-derived ones ~1e6
+                for scale in (1e-9, 1e-12, 3e6):
+                    check_case({'G': G.tolist(), 'A': A, 'B': B, 'scheme': scheme, 'num_paths': 'inf', 'cutoff': CUTS[2],
+                                'conserved': True, 'scale': scale}, ctx)
         ctx.sample(case)
 
 
